@@ -5,6 +5,7 @@ CONSTANTS
   DevIndexNotRechecked = FALSE
   DevNoPctDecode = FALSE
   DevLoopLexical = FALSE
+  DevClimbAndReturn = FALSE
 INVARIANT Safe
 INVARIANT Reachable
 CHECK_DEADLOCK FALSE
